@@ -905,6 +905,31 @@ func (e *Exec) loopVars(fr *frame, li *loopInfo, st *State) map[string]SV {
 			vars[name] = sv
 		}
 	}
+	// enclosing loops: their range index / counter are visible as rangeIndex<k>, ix<k> (k = loop ordinal)
+	for _, outer := range fr.loops {
+		if outer == li || !outer.body[li.header] {
+			continue
+		}
+		var ints []*ssa.Phi
+		for _, in := range outer.header.Instrs {
+			phi, ok := in.(*ssa.Phi)
+			if !ok {
+				break
+			}
+			sv, bound := st.env[phi]
+			if !bound {
+				continue
+			}
+			if phi.Comment == "rangeindex" {
+				vars[fmt.Sprintf("rangeIndex%d", outer.ordinal)] = sv
+			} else if b, ok := phi.Type().Underlying().(*types.Basic); ok && b.Info()&types.IsInteger != 0 {
+				ints = append(ints, phi)
+			}
+		}
+		if len(ints) == 1 {
+			vars[fmt.Sprintf("ix%d", outer.ordinal)] = st.env[ints[0]]
+		}
+	}
 	// the loop counter by role: if the header has exactly one integer phi that is not a range index, it is
 	// also available as `ix`, so that contracts need not depend on its source name
 	var intPhis []*ssa.Phi
